@@ -256,6 +256,22 @@ CHECKS = {
               "bound only structurally (the free variables are the prior's variables, whose densities are the declared ones)."),
         technique="TLA+ spec (Gauss.Curve) exact rationals checked with TLC; replay of TLC-enumerated structural points through setup_mcmc; total monitor",
     ),
+    "C09": dict(
+        category="model_checking",
+        text=("STRUCTURAL SCOPE ONLY. PriorModel states, on a lattice of powers of two, the log-uniform draw map a (b/a)^u, the 1/x density "
+              "(ratio law, support, normalisation), the K-scale rule min(sigma_K0 (P/P0)^(-1/3) (1-e^2)^(-1/2), max_K) with P0 in the "
+              "period's unit, the Kipping Beta parameters and which parameters' densities make up ln_prior; TLC checks the lattice "
+              "theorems (draws in support, log-flatness, ratio law, cap) and enumerates the cases. Each case is replayed: "
+              "UniformLogRV.rng_fn under a scripted generator, exp(logp(x)-logp(a)) projected to a/x, -inf outside the support, "
+              "x ln(b/a) p(x) = 1, the sigma graph of FixedCompanionMass at lattice (P, e) with P0 in d / yr / 8 d, Beta parameters "
+              "read from the constructed variables, and for prior.sample(return_logprobs=True) ln_prior[i] - sum_p logp_p(row_i | "
+              "row_i's parents) constant over rows with every draw inside its support."),
+        design_ref="DESIGN.md section 3 C09, section 4",
+        note=("NOT decided: that numpy / pytensor Beta, Normal, uniform and angle samplers produce the distribution whose parameters they "
+              "are given (no statistical test is made - TLC cannot decide distributional claims); the absolute normalisation of pymc's "
+              "Beta / Normal densities; the uniform-angle prior of pymc_ext (it has no log-density; treated as a constant)."),
+        technique="TLA+ spec (PriorModel) lattice theorems model-checked with TLC; replay of TLC-enumerated cases into the distribution classes; total monitor",
+    ),
 }
 
 NOT_YET = "check not built yet (build in progress; see DESIGN.md section 7)"
